@@ -27,7 +27,7 @@ FUNCTIONS = [(LT.FILE, '_writeSinglePotential'), (LT.FILE, 'writePotentials'), (
              (ET.FILE, 'SetFL_EAMTabulation.write'), (ET.FILE, 'SetFL_FS_EAMTabulation.write'), (ET.FILE, 'TABEAM_EAMTabulation.write'),
              (ET.FILE, 'TABEAM_FinnisSinclair_EAMTabulation.write'), (ET.FILE, 'ADP_EAMTabulation.write'),
              (ACT.FILE, 'action_tabulate'),
-             (XL.FILE, 'Excel_EAMTabulation._build_workbook')]      # potable: the named file holds the whole table, or (on any failure) is empty or was never opened
+             (XL.FILE, 'Excel_EAMTabulation._build_workbook'), (PT.FILE, 'Excel_PairTabulation._build_workbook')]      # potable: the named file holds the whole table, or (on any failure) is empty or was never opened
 
 def lemmas():
     """every public write() has the exceptional postcondition fp == old(fp): collected from the registry so that a contract
